@@ -117,7 +117,7 @@ def run(tier: str, seed: int) -> Report:
                 rep.nontrivial.add(len(seen))
         if v.startswith("SPEC/"):
             raise Machinery(f"layout table inconsistent for case {c['kind']} {c['f']}: {v}")
-        if v != "ok":
+        for v in verdicts[i][2]:
             rep.violate(v, {"kind": classes[c["kind"]].__name__},
                         {"kind": c["kind"], "f": c["f"], "dimension": field_focus(c, layout[c["kind"]]), "observed": {
                             "built": t["built"], "pdu": bytes(t["pdu"]["b"]).hex() if t["pdu"]["ok"] else None,
@@ -200,7 +200,7 @@ def replay(path: str) -> int:
     verdicts, _, _ = R.validate("Trace_UdsLayoutReq", traces)
     bad = 0
     for i, t in enumerate(traces):
-        print(f"replay kind={t['kind']} f={json.dumps(t['f'])[:100]} verdict={verdicts[i][0]}")
+        print(f"replay kind={t['kind']} f={json.dumps(t['f'])[:100]} broken={verdicts[i][2] or 'none'}")
         bad += verdicts[i][0] != "ok"
     if bad:
         print(f"VIOLATION property=C01 replay={path}")
